@@ -410,6 +410,8 @@ def _main(mod, modname, prop, a, seed, pool, t0):
     for f in agg['failures']:
         by_name.setdefault(norm_name(f['obligation']), []).append(f)
     os.makedirs(os.path.join(VERIF, 'replay', prop), exist_ok=True)
+    for old in os.listdir(os.path.join(VERIF, 'replay', prop)):
+        os.unlink(os.path.join(VERIF, 'replay', prop, old))
     for nm, fs in sorted(by_name.items()):
         e = match_known(fs[0], known)
         if e is not None and all(match_known(f, known) is e for f in fs):
